@@ -9,29 +9,29 @@ package misc
 //@ tagset XF := C01 C04 C06
 
 //@ func GetEndian
-//@   names  |  | buf:[2]byte
+//@   names  |  | buf:[2]byte | 
 //@   trusted "uses unsafe to probe host byte order; contract = little-endian host (amd64), confirmed by running the real function (table back end of C06/C14)"
 //@   ensures result == littleEndian
 
 //@ func SHAKE128
-//@   names out:[]byte msg:[]byte |  | hasher:sha3.ShakeHash
+//@   names out:[]byte msg:[]byte |  | hasher:sha3.ShakeHash | 
 //@   ensures forall q :: 0 <= q && q < len(out) ==> out[q] == spec.shake(128, spec.sub(msg, len(msg)), len(msg), q)
 //@   assigns out
 
 //@ func SHAKE256
-//@   names out:[]byte msg:[]byte |  | hasher:sha3.ShakeHash
+//@   names out:[]byte msg:[]byte |  | hasher:sha3.ShakeHash | 
 //@   ensures forall q :: 0 <= q && q < len(out) ==> out[q] == spec.shake(256, spec.sub(msg, len(msg)), len(msg), q)
 //@   assigns out
 
 //@ func SHA256
-//@   names out:[]byte msg:[]byte |  | hasher:hash.Hash hashOut:[]byte
+//@   names out:[]byte msg:[]byte |  | hasher:hash.Hash hashOut:[]byte | 
 //@   trusted "crypto/sha256 is external: modelled as a deterministic function of the message bytes (T4); copy(out, digest) writes min(len(out),32) bytes"
 //@   ensures forall q :: 0 <= q && q < len(out) && q < 32 ==> out[q] == spec.sha256(spec.sub(msg, len(msg)), len(msg), q)
 //@   ensures forall q :: 32 <= q && q < len(out) ==> out[q] == old(out[q])
 //@   assigns out
 
 //@ func SetType
-//@   names addr:*[8]uint32 typeValue:uint32 |  | i:int@1i
+//@   names addr:*[8]uint32 typeValue:uint32 |  | i:int@1i | 063bc152
 //@   ensures addr[3] == typeValue && addr[4] == 0 && addr[5] == 0 && addr[6] == 0 && addr[7] == 0
 //@   ensures addr[0] == old(addr[0]) && addr[1] == old(addr[1]) && addr[2] == old(addr[2])
 //@   assigns *addr
@@ -39,29 +39,29 @@ package misc
 //@   loop 1 invariant forall k_ :: 4 <= k_ && k_ < i ==> addr[k_] == 0
 
 //@ func SetOTSAddr
-//@   names addr:*[8]uint32 ots:uint32 |  | 
+//@   names addr:*[8]uint32 ots:uint32 |  |  | 
 //@   inline
 //@ func SetChainAddr
-//@   names addr:*[8]uint32 chain:uint32 |  | 
+//@   names addr:*[8]uint32 chain:uint32 |  |  | 
 //@   inline
 //@ func SetHashAddr
-//@   names addr:*[8]uint32 hash:uint32 |  | 
+//@   names addr:*[8]uint32 hash:uint32 |  |  | 
 //@   inline
 //@ func SetLTreeAddr
-//@   names addr:*[8]uint32 lTree:uint32 |  | 
+//@   names addr:*[8]uint32 lTree:uint32 |  |  | 
 //@   inline
 //@ func SetTreeHeight
-//@   names addr:*[8]uint32 treeHeight:uint32 |  | 
+//@   names addr:*[8]uint32 treeHeight:uint32 |  |  | 
 //@   inline
 //@ func SetTreeIndex
-//@   names addr:*[8]uint32 treeIndex:uint32 |  | 
+//@   names addr:*[8]uint32 treeIndex:uint32 |  |  | 
 //@   inline
 //@ func SetKeyAndMask
-//@   names addr:*[8]uint32 keyAndMask:uint32 |  | 
+//@   names addr:*[8]uint32 keyAndMask:uint32 |  |  | 
 //@   inline
 
 //@ func ToByteLittleEndian
-//@   names out:[]uint8 in:uint32 bytes:uint32 |  | i:int32@1i
+//@   names out:[]uint8 in:uint32 bytes:uint32 |  | i:int32@1i | 2435bbf0
 //@   requires len(out) >= bytes && bytes <= 64
 //@   ensures forall d :: 0 <= d && d < bytes ==> out[d] == spec.byte32(in, bytes-1-d)
 //@   assigns out[0:bytes]
@@ -70,7 +70,7 @@ package misc
 //@   loop 1 invariant forall q :: q < 0 || q >= bytes ==> out[q] == old(out[q])
 
 //@ func ToByteBigEndian
-//@   names out:[]uint8 in:uint32 bytes:uint32 |  | i:uint32@1i
+//@   names out:[]uint8 in:uint32 bytes:uint32 |  | i:uint32@1i | f66822f5
 //@   requires len(out) >= bytes && bytes <= 64
 //@   ensures forall j :: 0 <= j && j < bytes ==> out[j] == spec.byte32(in, j)
 //@   assigns out[0:bytes]
@@ -79,7 +79,7 @@ package misc
 //@   loop 1 invariant forall q :: q < 0 || q >= bytes ==> out[q] == old(out[q])
 
 //@ func AddrToByte
-//@   names out:*[32]uint8 addr:*[8]uint32 |  | i:int@1i i:int@2i
+//@   names out:*[32]uint8 addr:*[8]uint32 |  | i:int@1i i:int@2i | a180769d 38ccd1f9
 //@   ensures forall d :: 0 <= d && d < 32 ==> out[d] == spec.byte32(addr[d / 4], 3 - d % 4)
 //@   assigns *out
 //@   loop 1 invariant 0 <= i && i <= 8
@@ -93,7 +93,7 @@ package misc
 //@ pred allInList(s, n) := forall m_ :: 0 <= m_ && m_ < n ==> spec.inlist(spec.tok(strof(s), m_))
 
 //@ func binToMnemonic
-//@   names input:[]uint8 |  | buf:*bytes.Buffer separator:string nibble:int@1i p:int b1:uint32 b2:uint32 idx:uint32 _:int err:error
+//@   names input:[]uint8 |  | buf:*bytes.Buffer separator:string nibble:int@1i p:int b1:uint32 b2:uint32 idx:uint32 _:int err:error | 4903e36b
 //@   props C10 C09
 //@   panics "byte count needs to be a multiple of 3" when len(input) % 3 != 0
 //@   ensures[C10,C09] strof(result) == spec.joined(spec.mnemWords(input), 2 * len(input) / 3)
@@ -103,17 +103,17 @@ package misc
 //@   loop 1 assert[C10,C09] strof(buf) == spec.joined(spec.mnemWords(input), nibble / 3 + 1)
 
 //@ func SeedBinToMnemonic
-//@   names input:[48]uint8 |  | 
+//@   names input:[48]uint8 |  |  | 
 //@   props C10 C09
 //@   ensures[C10,C09] strof(result) == spec.joined(spec.mnemWords(input[0:]), 32)
 
 //@ func ExtendedSeedBinToMnemonic
-//@   names input:[51]uint8 |  | 
+//@   names input:[51]uint8 |  |  | 
 //@   props C10 C09
 //@   ensures[C10,C09] strof(result) == spec.joined(spec.mnemWords(input[0:]), 34)
 
 //@ func mnemonicToBin
-//@   names mnemonic:string |  | mnemonicWords:[]string wordCount:int wordLookup:map[string]int i:int@1k word:string@1v result:[]uint8 current:int buffering:int resultIndex:int _:int@2k w:string@2v value:int found:bool shift:int mask:int tmp:int
+//@   names mnemonic:string |  | mnemonicWords:[]string wordCount:int wordLookup:map[string]int i:int@1k word:string@1v result:[]uint8 current:int buffering:int resultIndex:int _:int@2k w:string@2v value:int found:bool shift:int mask:int tmp:int | 8b14b8de da91fb74 7e5fbe4a
 //@   props C14 C10 C09 C15
 //@   panics[C10,C09,C14] "word count = %d must be even" when spec.ntok(strof(mnemonic)) % 2 != 0
 //@   panics[C10,C09,C14] "invalid word in mnemonic" when spec.ntok(strof(mnemonic)) % 2 == 0 && !allInList(mnemonic, spec.ntok(strof(mnemonic)))
@@ -155,7 +155,7 @@ package misc
 //@   loop 3 invariant[C10,C09] forall t_ :: 0 <= t_ && t_ <= range_2 ==> 0 <= tokIdx(mnemonic, t_) && tokIdx(mnemonic, t_) < 4096
 
 //@ func MnemonicToSeedBin
-//@   names mnemonic:string |  | output:[]uint8 sizedOutput:[48]uint8
+//@   names mnemonic:string |  | output:[]uint8 sizedOutput:[48]uint8 | 
 //@   props C14 C10 C09 C15
 //@   pure
 //@   panics[C10,C09,C14] "word count = %d must be even" when spec.ntok(strof(mnemonic)) % 2 != 0
@@ -165,7 +165,7 @@ package misc
 //@   ensures[C10,C09] forall u_ :: 0 <= u_ && u_ < 16 ==> result[3*u_] == tokIdx(mnemonic, 2*u_) / 16 && result[3*u_+1] == (tokIdx(mnemonic, 2*u_) % 16) * 16 + tokIdx(mnemonic, 2*u_+1) / 256 && result[3*u_+2] == tokIdx(mnemonic, 2*u_+1) % 256
 
 //@ func MnemonicToExtendedSeedBin
-//@   names mnemonic:string |  | output:[]uint8 sizedOutput:[51]uint8
+//@   names mnemonic:string |  | output:[]uint8 sizedOutput:[51]uint8 | 
 //@   props C14 C10 C09 C15
 //@   panics[C10,C09,C14] "word count = %d must be even" when spec.ntok(strof(mnemonic)) % 2 != 0
 //@   panics[C10,C09,C14] "invalid word in mnemonic" when spec.ntok(strof(mnemonic)) % 2 == 0 && !allInList(mnemonic, spec.ntok(strof(mnemonic)))
@@ -176,17 +176,17 @@ package misc
 // ---- C10 round trips (lemma functions in zz_lemmas_verif.go) ----
 
 //@ func verifLemmaSeedRoundTrip
-//@   names seed:[48]uint8 |  | 
+//@   names seed:[48]uint8 |  |  | 
 //@   props C10 C09
 //@   ensures[C10,C09] forall u_ :: 0 <= u_ && u_ < 16 ==> result[3*u_] == seed[3*u_] && result[3*u_+1] == seed[3*u_+1] && result[3*u_+2] == seed[3*u_+2]
 
 //@ func verifLemmaExtendedSeedRoundTrip
-//@   names eseed:[51]uint8 |  | 
+//@   names eseed:[51]uint8 |  |  | 
 //@   props C10 C09
 //@   ensures[C10,C09] forall u_ :: 0 <= u_ && u_ < 17 ==> result[3*u_] == eseed[3*u_] && result[3*u_+1] == eseed[3*u_+1] && result[3*u_+2] == eseed[3*u_+2]
 
 //@ func verifLemmaPhraseRoundTrip
-//@   names phrase:string |  | 
+//@   names phrase:string |  |  | 
 //@   props C10
 //@   panics "word count = %d must be even"
 //@   panics "invalid word in mnemonic"
@@ -194,7 +194,7 @@ package misc
 //@   ensures[C10] strof(result) == strof(phrase)
 
 //@ func verifLemmaExtendedPhraseRoundTrip
-//@   names phrase:string |  | 
+//@   names phrase:string |  |  | 
 //@   props C10
 //@   panics "word count = %d must be even"
 //@   panics "invalid word in mnemonic"
@@ -202,13 +202,13 @@ package misc
 //@   ensures[C10] strof(result) == strof(phrase)
 
 //@ func VerifLemmaSeedRoundTrip
-//@   names seed:[48]uint8 |  | 
+//@   names seed:[48]uint8 |  |  | 
 //@   props C09
 //@   exit[C09] forallx u_ :: 0 <= u_ && u_ < 16 ==> result[3*u_] == seed[3*u_] && result[3*u_+1] == seed[3*u_+1] && result[3*u_+2] == seed[3*u_+2]
 //@   ensures[C09] forall q_ :: 0 <= q_ && q_ < 48 ==> result[q_] == seed[q_]
 
 //@ func VerifLemmaExtendedSeedRoundTrip
-//@   names eseed:[51]uint8 |  | 
+//@   names eseed:[51]uint8 |  |  | 
 //@   props C09
 //@   exit[C09] forallx u_ :: 0 <= u_ && u_ < 17 ==> result[3*u_] == eseed[3*u_] && result[3*u_+1] == eseed[3*u_+1] && result[3*u_+2] == eseed[3*u_+2]
 //@   ensures[C09] forall q_ :: 0 <= q_ && q_ < 51 ==> result[q_] == eseed[q_]
